@@ -575,7 +575,7 @@ func rulesC09(p *Prog, r *Report) {
 	// answer depend on the letter case the id was written in.
 	r.Rule("K6", "necessary", 1, "the id normalisation decides on the raw id only through the folding lookups, constant-suffix tests and '+' probes (its decision list resolves)")
 	if plan, err := extractPlan(p); err != nil {
-		r.Bad("K6", "normalizeLicense|guards", "-", "the normalisation takes a decision on the raw id that is not a folding lookup, a constant-suffix test or a '+' probe: "+err.Error())
+		r.Unknown("K6", "normalizeLicense|guards", "-", "kind=undecided: the normalisation takes a decision on the raw id that is not resolved into a folding lookup, a constant-suffix test or a '+' probe: "+err.Error())
 	} else {
 		r.OK("K6", "normalizeLicense|guards", p.pos(plan.Fn.Pos()), "decision list resolved", fmt.Sprintf("%d attempts", len(plan.Attempts)), true)
 	}
